@@ -8,6 +8,7 @@
     deadlock_free nonreentrant_nested_load_deadlocks reentrant_nested_load_completes
     unlocked_store_breaks_wf locked_store_is_setitem code_lock_is_reentrant
     deadlock_free_for_code each_load_correct wf_at_quiescence acquisitions_come_from_programs
+    acquisitions_in_program_order
 -/
 import Genshi.Lemmas.ConcLoad
 import Genshi.Lemmas.ConcSerial
@@ -84,6 +85,17 @@ theorem acquisitions_come_from_programs (c : CCfg) (ls0 : LState) (progs : List 
     (sched : List Tid) (t : Tid) (q : CReq)
     (h : (t, q) ∈ (exec c (G.init ls0 progs) sched).acqLog) : q ∈ progs.getD t [] :=
   (minv_exec (minv_init ls0 progs) sched).log (t, q) h
+
+/-- … and each thread's loads appear in the log in the order of its program: what a thread has
+    logged, followed by the load it is waiting to acquire the lock for and the loads it has not
+    called yet, is its program.  When all threads are done the per-thread projection of the
+    acquisition log *is* the program. -/
+theorem acquisitions_in_program_order (c : CCfg) (ls0 : LState) (h0 : ls0.lock = 0)
+    (progs : List (List CReq)) (sched : List Tid) (t : Tid) :
+    logOf t (exec c (G.init ls0 progs) sched).acqLog ++
+      headWait ((exec c (G.init ls0 progs) sched).threads t).stack ++
+      ((exec c (G.init ls0 progs) sched).threads t).todo = progs.getD t [] :=
+  pinv_exec (ginv_init ls0 h0 progs) (pinv_init ls0 progs) sched t
 
 /-- Every call returns what C15's `load` returns at its place in the acquisition order: when the
     lock is free, the shared state and the results are those of C15's `load` applied to the
